@@ -21,6 +21,8 @@ def run(ctx):
         ctx.fn("ural.lru.trie.LRUTrie." + name)
         site = tr.site(fn)
         ex = P.Extractor(repo, atomic={CLEAN, "ural.lru.trie.ensure_lru_stems"})
+        ex.self_class = tr.klass("LRUTrie")
+        ex.atomic_methods = ("tokenize", "set", "match", "set_lru", "match_lru", "__setitem__")
         st = P._State(ex, tr, ex._bind_params(tr, fn, [a.arg for a in fn.args.args], {}, None, None), 0)
         st.block(fn.body)
         # the key expression
@@ -45,6 +47,7 @@ def run(ctx):
             ctx.ob("R1", name + "/stores-through-assignment", key is not None, "LRUTrie.%s does not store through trie[stems] = metadata" % name, site)
         if key is None:
             continue
+        key = P.strip_inl(key)
         ok = key[0] == "call" and key[1] == CLEAN and len(key[2]) == 1
         ctx.ob("R1", name + "/key-cleaned", ok, "LRUTrie.%s keys the trie with %s: empty path stems are not dropped, so a stored url and the same url with/without a trailing slash are different keys" % (name, P.show(key, maxdepth=3)), site,
                witness="set('http://a.com/x/'); match('http://a.com/x')")
@@ -129,3 +132,7 @@ def run(ctx):
     # variant tries key on the tuple form: it must be the very tuple the string form is built from
     from .c07 import stems_variants
     stems_variants(ctx, "R6")
+    ctx.rule("R7", "the variant tries key on the SplitResult their URL function returns with unsplit=False, whose path is split at '/' with the first (empty) piece dropped: normpath, interpreted on every absolute path of <= 4 segments over {a, b, '.', '..', ''}, agrees with the RFC 3986 dot-segment reference (in particular an absolute path stays absolute)")
+    ctx.fn("ural.utils.normpath")
+    from .common_url import normpath_table
+    normpath_table(ctx, "R7", 5 if ctx.tier == "thorough" else 4)
